@@ -1,3 +1,2 @@
 package sim
 
-func genRetryManual(r *Rng, prop string) *Scenario { return genReconn(r, prop) }
